@@ -592,7 +592,10 @@ impl Gen {
                 }),
                 12 => Self::used_slot(&w.fslots, &mut self.rng).map(|fs| {
                     let len = self.io_len(w, fs, true);
-                    Op::Write { fs, len, seed: self.rng.next_u32(), fl: self.fl() }
+                    let seed = self.rng.next_u32();
+                    // now and then "a one and then zeros" (derived from the seed drawn anyway: no extra draw)
+                    let seed = if seed % 11 == 3 { seed | crate::rng::ZERO_PAYLOAD } else { seed };
+                    Op::Write { fs, len, seed, fl: self.fl() }
                 }),
                 13 => Self::used_slot(&w.fslots, &mut self.rng).map(|fs| self.seek_op(w, fs)),
                 14 => Self::used_slot(&w.fslots, &mut self.rng).map(|fs| Op::Query { fs, fl: self.rng.below(2) as u8 }),
@@ -694,6 +697,17 @@ impl Gen {
         let fl = self.fl();
         let interesting: Vec<i64> = vec![0, 1, 511, 512, 513, cb - 1, cb, cb + 1, 2 * cb, len, len - 1, len + 1, len / 2, off - cb, off - 2 * cb, off + cb, (off / cb) * cb, ((off / cb) - 1) * cb];
         let t = if self.rng.chance(3, 4) { *self.rng.pick(&interesting) } else { self.rng.range(0, (len + 2) as u64) as i64 };
+        if fl == 2 && (self.p.name == "C01" || self.p.name == "C02") && self.rng.chance(1, 8) {
+            // through the embedded-io adapter: positions and moves of 2^32 and more, whose low 32 bits lie inside the
+            // file (refused like every position behind the end)
+            let low = (*self.rng.pick(&[0i64, 1, 10, len, len / 2, off, 512])).clamp(0, len.max(0));
+            return match self.rng.below(4) {
+                0 => Op::SeekStart { fs, off: (1u64 << 32) + low as u64, fl },
+                1 => Op::SeekStart { fs, off: (1u64 << 32) * self.rng.range(2, 9) + low as u64, fl },
+                2 => Op::SeekCur { fs, delta: (1i64 << 32) + (low - off), fl },
+                _ => Op::SeekCur { fs, delta: -(1i64 << 32) + (low - off), fl },
+            };
+        }
         match self.rng.below(3) {
             0 => Op::SeekStart { fs, off: if t < 0 { 0 } else { t as u64 }, fl },
             1 => Op::SeekCur { fs, delta: t - off, fl },
